@@ -126,11 +126,17 @@ class FullCheck(BaseCheck):
         return {'delay': 0.0005}
 
     modes = [first_mode] + ['up'] * (n_eps - 1)
+    aperture = None
+    if balancer == 'aperture' and n_eps > 1 and rng.random() < 0.5:
+      # non-default aperture: wider minimum and frequent jitter rounds under traffic
+      aperture = {'min_size': rng.choice([1, 2, 3]), 'jitter_min_sec': 3, 'jitter_max_sec': 8,
+                  'min_load': 0.5, 'max_load': rng.choice([1.0, 2.0])}
+      classes.add('aperture-jitter')
     try:
       w = StackWorld(env, rng, kind=kind, n_eps=n_eps, balancer=balancer, timeout=Tset[0],
                      client_id=rng.choice([None, 'cid']) if kind == 'mux' else None,
                      open_timeout=open_timeout, scripted=scripted, policy=Policy(), pool=pool,
-                     server_modes=modes, connect_latency=conn_lat)
+                     server_modes=modes, connect_latency=conn_lat, aperture=aperture)
     except Exception as e:  # noqa
       out.violate('harness:build-failed', 'building the client raised %r' % e, {})
       return out
